@@ -332,6 +332,10 @@ def c06(run):
 
 @plan("C07")
 def c07(run):
+    # rich interfaces: annotated arguments, arguments without direction, oneway interfaces with constants between methods
+    g = D.RichGen(run.rng, maxdepth=2)
+    for _ in range(300 if run.tier == "quick" else 5000):
+        run.add([piece_scenario([("a", D.layout(g.document("interface"), run.rng, mode="spaces"))], "rich-interface", validate=True)])
     return validation_plan(run, ["dir"], nt_args, 300, 3000,
         "TLC enumerates family 'dir' exhaustively: 17 categories x 4 directions x method oneway x interface oneway x "
         "3 argument positions = 816 cells, each in a project that makes the category arise through real resolution; plus "
@@ -540,6 +544,10 @@ def c11(run):
             toks.append(D.T("}"))
             scs.append(F.determinism_scenario([{"id": "a", "toks": toks}], "many-imports-ties", run.rng, procs=2))
     run.add(scs)
+    # replacement histories: an id whose content is replaced (also by content without a tree) must give what a new
+    # parser holding the final pairs gives
+    for s_ in hist_model(run, "hist", 2 if q else 3, "core", "empty"):
+        run.add([F.hist_scenario(s_, "mc-hist-empty-core")])
     # files that keep their tree after a recovered syntax error AND get validation diagnostics: the two kinds of
     # diagnostics must come out merged in ascending order
     run.add(mutated_docs(run, 500 if q else 8000, validate=True))
